@@ -13,7 +13,7 @@ PROPS = {
         "assumptions": ["CRC-32C collisions excluded as stated in the theorem", "disk model of DESIGN §5"],
     },
     "C03": {
-        "suites": ["crash", "segment"],
+        "suites": ["crash", "segment", "opendamage"],
         "partial": "the WAL-level crash statement is a theorem about the I/O-action model Model/Crash.lean (programs of StoreLogs with rotation and base reset, both truncations, Set and Open; process crash and power loss with any per-file choice of surviving un-fsynced batches and directory entries; any number of recoveries themselves cut by crashes), proved for every state satisfying the invariant QuiescentS, which is itself proved to hold initially, after every call and after every recovery; the model is tied to wal.go by the crash suite (per call: the real I/O event sequence = the model's program; per crash point and {process crash, nothing/everything un-fsynced surviving}: the log the real Open recovers = the model's; nested restarts; the invariant evaluated on every shadowed state). Granularity of the model is the batch: that a torn batch is recovered as absent or whole is the byte-level theorem (L1, batch_atomic_any_tear) — the two levels are linked by matching statements and by the chunk-granular crash suite, not by a mechanised composition. usability = Open succeeds and every legal call then behaves as specified; the real code's append/read/stable-set after every recovered image is exercised by the crash suite's continuation and usability probes",
         "assumptions": ["disk model of DESIGN §5"],
     },
